@@ -510,7 +510,7 @@ def src_text(e):
     return "?"
 
 
-NOARG_STRUCTS = {"CompleteOnUnwind", "BufferedIter", "Taken", "CounterNew", "SliceNew", "RangeNew", "VecNew", "ArrNew", "IterNew"}
+NOARG_STRUCTS = {"CompleteOnUnwind", "BufferedIter", "Taken", "BufIterSelf", "CounterNew", "SliceNew", "RangeNew", "VecNew", "ArrNew", "IterNew"}
 
 
 class Emitter:
@@ -1423,6 +1423,7 @@ PTARGETS = [
     dict(ns="Iter", file=IT, impl=r"ConcurrentIter for ConIterOfIter", fns=["next_id_and_value", "next_chunk", "skip_to_end"], self_ty="IterSelf"),
 ]
 PTARGETS += [
+    dict(ns="BufIter", file="iter/buffered/iter.rs", impl=r"BufferedChunk<T> for BufferIter", fns=["new"], self_ty=None, self_struct="BufIterSelf"),
     dict(ns="BufIter", file="iter/buffered/iter.rs", impl=r"BufferedChunk<T> for BufferIter", fns=["chunk_size", "pull"], self_ty="BufIterSelf",
          params={"iter": "IterSelf"}, recv={"iter": "Iter"}, mutable=["pull"], lets={"core_iter": "WrappedH", "guard": "CompleteOnUnwind"}),
     dict(ns="BufferedIterIter", file="iter/buffered/buffered_iter.rs", impl=r"impl<'a, T, B> BufferedIter", fns=["next"], self_ty="BufferedIterSelfP",
@@ -1485,6 +1486,8 @@ def main_prog(PTARGETS=None, P_OUT=None, own=False):
                 em.prepare(ast)
                 em.self_struct = "Taken" if t["ns"] == "Taken" else None
                 em.recv["TakenTy__"] = ("Taken", nsf["Taken"])
+            elif t.get("self_struct"):
+                em.self_struct = t["self_struct"]
             term = fn_body_mut(em, ast, 2, mut_self) if is_mut else em.do_block(ast, 2)
             sig = " {ρ' : Type} (fuel : Nat)" + "".join(" (%s : Nat)" % c for c in t.get("consts", [])) + "".join(" (%s : %s)" % (lid(n), ty) for (n, ty) in scope)
             if t.get("consts"):
